@@ -1409,6 +1409,557 @@ def run_positive_control(ctx):
                       {'part': 'positive-control'}, no_input=True)
 
 
+# ====================================================================== (d) transparency at the HTTP level
+#
+# Everything above talks to `engineio.socket.Socket` objects; the instrumentation also wraps engine.io's HTTP layer
+# (`eio._ok`, `Socket.handle_post_request`, `Socket._send_ping`, the websocket handler).  Here the SAME request script
+# is played, through `handle_request` (WSGI / ASGI, `world_http`), against a plain server and against an instrumented
+# one, and every response to an application client must be the same: status, headers, body.  The class-level patches
+# of `instrument()` are process-global, so the plain server runs first, alone.
+
+HTTP_NSS = ['/', '/chat']
+HTTP_STRINGS = ['hi', 'a"b', 'back\\slash', 'café ☃', 'x y&z=1', '', "it's", '<b>']
+HTTP_FLAVOURS = ['xhr', 'jsonp', 'b64']
+
+
+def http_app(hw, log, names):
+    """the application: the same on every server of a comparison"""
+    sio = hw.sio
+    is_async = hw.is_async
+
+    def rec(what, ns, sid, *a):
+        log.append([what, ns, names.name(sid)] + [C.jsonable(x) for x in a])
+
+    def handlers(ns):
+        def connect(sid, environ, auth=None):
+            rec('connect', ns, sid, auth)
+            if isinstance(auth, dict) and auth.get('deny'):
+                raise ConnectionRefusedError('denied', {'code': auth['deny']})
+            return [('enter_room', (sid, auth['room']), {'namespace': ns})] \
+                if isinstance(auth, dict) and isinstance(auth.get('room'), str) else []
+
+        def disconnect(sid, reason=None):
+            rec('disconnect', ns, sid, reason)
+            return []
+
+        def echo(sid, *data):
+            rec('echo', ns, sid, *data)
+            return [('emit', ('reply', tuple(data)), {'to': sid, 'namespace': ns})], \
+                (data[0] if len(data) == 1 else tuple(data))
+
+        def bcast(sid, data=None):
+            rec('bcast', ns, sid, data)
+            return [('emit', ('news', data), {'namespace': ns})]
+
+        def join(sid, room):
+            rec('join', ns, sid, room)
+            return [('enter_room', (sid, room), {'namespace': ns})], 'joined'
+
+        def leave(sid, room):
+            rec('leave', ns, sid, room)
+            return [('leave_room', (sid, room), {'namespace': ns})]
+
+        def room(sid, room, data=None):
+            rec('room', ns, sid, room, data)
+            return [('emit', ('to-room', data), {'to': room, 'namespace': ns, 'skip_sid': sid})]
+
+        def bin_(sid, data=None):
+            rec('bin', ns, sid, data)
+            return [('emit', ('blob', {'b': b'\x00\x01\xfe', 'echo': data}), {'to': sid, 'namespace': ns})], b'\x10\x20'
+
+        def big(sid, n=0):
+            rec('big', ns, sid, n)
+            return [('emit', ('big', 'q"' * int(n)), {'to': sid, 'namespace': ns})]
+
+        def bye(sid):
+            rec('bye', ns, sid)
+            return [('disconnect', (sid,), {'namespace': ns})]
+        return {'connect': connect, 'disconnect': disconnect, 'echo': echo, 'bcast': bcast, 'join': join,
+                'leave': leave, 'room': room, 'bin': bin_, 'big': big, 'bye': bye}
+
+    def wrap(fn):
+        # a handler body = bookkeeping, then calls of the server API, then the return value (the acknowledgement)
+        def split(r):
+            if isinstance(r, tuple) and len(r) == 2 and isinstance(r[0], list):
+                return r
+            return r, None
+        if is_async:
+            async def ah(*a):
+                calls, ret = split(fn(*a))
+                for name, args, kw in calls:
+                    v = getattr(sio, name)(*args, **kw)
+                    if hasattr(v, '__await__'):
+                        await v
+                return ret
+            return ah
+
+        def h(*a):
+            calls, ret = split(fn(*a))
+            for name, args, kw in calls:
+                getattr(sio, name)(*args, **kw)
+            return ret
+        return h
+    for ns in HTTP_NSS:
+        for ev, fn in handlers(ns).items():
+            sio.on(ev, wrap(fn), namespace=ns)
+
+
+def gen_http_script(rng, n_ops):
+    n_clients = rng.choice([2, 3, 3, 4])
+    fl = [rng.choice(HTTP_FLAVOURS) for _ in range(n_clients)]
+    if 'jsonp' not in fl and rng.random() < 0.8:
+        fl[rng.randrange(n_clients)] = 'jsonp'
+    clients = [{'c': 'c%d' % i, 'fl': f, 'j': rng.choice([0, 0, 1, 7, 41])} for i, f in enumerate(fl)]
+    ops = []
+    opened = []
+    conn = {}                    # client -> set of namespaces it asked to join
+    ack = [0]
+
+    def js(v):
+        return json.dumps(v, separators=(',', ':'), ensure_ascii=rng.random() < 0.5)
+
+    def event(ns, name, args, with_ack=None):
+        if with_ack is None:
+            with_ack = rng.random() < 0.5
+        aid = ''
+        if with_ack:
+            ack[0] += 1
+            aid = str(ack[0])
+        t = '2' + aid + js([name] + list(args))
+        typ, rest = t[0], t[1:]
+        return '4' + typ + ('' if ns == '/' else ns + ',') + rest
+
+    def some_event(c):
+        nss = sorted(conn.get(c, [])) or ['/']
+        ns = rng.choice(nss) if rng.random() < 0.9 else rng.choice(HTTP_NSS)
+        x = rng.random()
+        s = rng.choice(HTTP_STRINGS)
+        if x < 0.35:
+            return [event(ns, 'echo', rng.choice([[s], [s, 1], [{'k': s}], [[1, s]], []]))]
+        if x < 0.50:
+            return [event(ns, 'bcast', [s])]
+        if x < 0.62:
+            return [event(ns, rng.choice(['join', 'join', 'leave']), [rng.choice(['r1', 'r2'])])]
+        if x < 0.72:
+            return [event(ns, 'room', [rng.choice(['r1', 'r2']), s])]
+        if x < 0.84:
+            # a binary event: header packet + attachment, in one payload
+            aid = ''
+            if rng.random() < 0.5:
+                ack[0] += 1
+                aid = str(ack[0])
+            head = '451-' + ('' if ns == '/' else ns + ',') + aid + js(['bin', {'_placeholder': True, 'num': 0}])
+            return [head, 'b' + rng.choice(['AQID', '/v8=', 'aGVsbG8='])]
+        if x < 0.92:
+            return [event(ns, 'big', [rng.choice([30, 600, 700])], with_ack=False)]
+        if x < 0.96:
+            return [event(ns, 'bye', [], with_ack=False)]
+        return [event(ns, 'nobody-listens', [s])]
+
+    def admin_ops():
+        out = []
+        if rng.random() < 0.5:
+            out.append({'op': 'admin', 'do': rng.choice(['poll', 'poll', 'stats', 'ping'])})
+        return out
+    ops.append({'op': 'admin', 'do': 'connect'})
+    while len(ops) < n_ops:
+        x = rng.random()
+        ops += admin_ops()
+        if (x < 0.3 or not opened) and len(opened) < n_clients:
+            c = clients[len(opened)]['c']
+            opened.append(c)
+            ops.append({'op': 'open', 'c': c, 'origin': rng.choice([None, None, None, 'same', 'same', 'other'])})
+            if rng.random() < 0.85:
+                for ns in rng.choice([['/'], ['/chat'], ['/', '/chat'], ['/chat', '/']]):
+                    auth = rng.choice([None, None, {'room': rng.choice(['r1', 'r2'])}, {'token': rng.choice(HTTP_STRINGS)}])
+                    conn.setdefault(c, set()).add(ns)
+                    ops.append({'op': 'post', 'c': c,
+                                'pk': ['40' + ('' if ns == '/' else ns + ',') + (js(auth) if auth else '')]})
+                ops.append({'op': 'poll', 'c': c, 'gzip': False, 'origin': None})
+            continue
+        c = rng.choice(opened)
+        if x < 0.27:
+            ns = rng.choice(HTTP_NSS)
+            auth = rng.choice([None, None, {'room': rng.choice(['r1', 'r2'])}, {'token': rng.choice(HTTP_STRINGS)},
+                               {'deny': 7}])
+            if not (isinstance(auth, dict) and auth.get('deny')):
+                conn.setdefault(c, set()).add(ns)
+            ops.append({'op': 'post', 'c': c, 'pk': ['40' + ('' if ns == '/' else ns + ',') + (js(auth) if auth else '')]})
+        elif x < 0.52:
+            pk = some_event(c)
+            while rng.random() < 0.25:
+                pk += some_event(c)
+            ops.append({'op': 'post', 'c': c, 'pk': pk})
+            if rng.random() < 0.6:
+                ops.append({'op': 'poll', 'c': rng.choice([c, c, rng.choice(opened)]), 'gzip': rng.random() < 0.5,
+                            'origin': rng.choice([None, None, 'same'])})
+        elif x < 0.74:
+            ops.append({'op': 'poll', 'c': c, 'gzip': rng.random() < 0.3,
+                        'origin': rng.choice([None, None, None, 'same'])})
+        elif x < 0.79:
+            ops.append({'op': 'ping', 'c': c})
+            if rng.random() < 0.7:
+                ops.append({'op': 'poll', 'c': c, 'gzip': False, 'origin': None})
+                ops.append({'op': 'post', 'c': c, 'pk': ['3']})
+        elif x < 0.87:
+            tgt = rng.choice(opened)
+            ns = rng.choice(HTTP_NSS)
+            y = rng.random()
+            if y < 0.45:
+                ops.append({'op': 'api', 'call': 'emit', 'ev': 'push', 'data': rng.choice(HTTP_STRINGS), 'ns': ns,
+                            'to': rng.choice([None, None, {'room': 'r1'}, {'c': tgt}])})
+            elif y < 0.6:
+                ops.append({'op': 'api', 'call': 'emit', 'ev': 'pushb', 'data': '<bytes>', 'ns': ns, 'to': None})
+            elif y < 0.8:
+                ops.append({'op': 'api', 'call': 'emit', 'ev': 'asks', 'data': 1, 'ns': ns, 'to': {'c': tgt}, 'cb': True})
+            else:
+                ops.append({'op': 'api', 'call': 'disconnect', 'c': tgt, 'ns': ns})
+        elif x < 0.90:
+            ns = rng.choice(sorted(conn.get(c, [])) or ['/'])
+            # the client acknowledges (whatever id), or leaves the namespace
+            ops.append({'op': 'post', 'c': c, 'pk': [rng.choice(['43' + ('' if ns == '/' else ns + ',') + '1["got"]',
+                                                                   '41' + ('' if ns == '/' else ns + ',')])]})
+        elif x < 0.97:
+            ops.append({'op': 'bad', 'c': c, 'kind': rng.choice(['sid', 'transport', 'version', 'jsonp', 'put', 'options',
+                                                                 'options', 'not-a-packet', 'post-no-sid', 'origin',
+                                                                 'sid', 'jsonp', 'too-long', 'unknown-packet'])})
+        elif x < 0.985:
+            ops.append({'op': 'poll', 'c': c, 'gzip': False, 'origin': None, 'idle': True})
+        else:
+            ops.append({'op': 'post', 'c': c, 'pk': ['1']})           # engine.io CLOSE
+    return {'clients': clients, 'ops': ops}
+
+
+class _Ids:
+    """ids the server generated, renamed by first appearance in what application clients saw"""
+
+    def __init__(self, hw):
+        self.hw = hw
+        self.fwd = {}
+
+    def name(self, i):
+        if not isinstance(i, str):
+            return i
+        if i not in self.fwd:
+            self.fwd[i] = '<id%d>' % len(self.fwd)
+        return self.fwd[i]
+
+    def text(self, s):
+        known = [i for i in self.hw.ids if i and i in s]
+        if not known:
+            return s
+        rx = re.compile('|'.join(re.escape(i) for i in sorted(known, key=len, reverse=True)))
+        return rx.sub(lambda m: self.name(m.group(0)), s)
+
+
+ORIGINS = {'same': 'http://localhost', 'other': 'http://evil.example'}
+
+
+def run_http_script(family, script, inst_spec=None, with_admin=False, decisions=None):
+    """plays the script -> {'resp': [...], 'app': handler log, 'decisions': which polls were made}.
+    `inst_spec` None = the plain server (admin ops are skipped).  Polls: a script `poll` is made when the PLAIN
+    server holds something for that client (an idle long poll is a time-out and closes the socket; the script has
+    explicit idle polls for that) — the instrumented run makes exactly the requests the plain run made."""
+    from .. import world_http as H
+    hw = H.HttpWorld(family)
+    ids = _Ids(hw)
+    app = []
+    parked = []
+    inst = None
+    out = []
+    made = []
+    try:
+        http_app(hw, app, ids)
+        if inst_spec is not None:
+            inst = instrument_world(hw.w, parked, auth=False, mode=inst_spec['mode'], read_only=inst_spec['read_only'])
+        clients = {c['c']: H.Client(c['c'], c['fl'], c['j']) for c in script['clients']}
+        adm = H.Client('adm', 'xhr')
+        cbs = []
+
+        def note(i, op, c, r, j=None, final=False):
+            body = H.plain_body(r)
+            try:
+                text = body.decode('utf-8')
+            except UnicodeDecodeError:
+                text = repr(body)
+            hdrs = [[k, v] for k, v in r['headers']]
+            cl = [v for k, v in r['headers'] if k.lower() == 'content-length']
+            pk = H.decode(c.flavour if c else 'xhr', r['status'], body, j)
+            out.append({'i': i, 'op': op, 'c': c.name if c else None, 'status': r['status'], 'headers': hdrs,
+                        'body': ids.text(text), 'final': final,
+                        'content_length_ok': all(v == str(len(r['body'])) for v in cl),
+                        'client_sees': [ids.text(p) for p in pk] if isinstance(pk, list) else list(pk)})
+
+        def hdr(op, gz=False):
+            h = {}
+            if op.get('origin'):
+                h['HTTP_ORIGIN'] = ORIGINS[op['origin']]
+            if gz:
+                h['HTTP_ACCEPT_ENCODING'] = 'deflate;q=0.5, gzip'
+            return h
+        pi = 0
+        for i, op in enumerate(script['ops']):
+            k = op['op']
+            if k == 'admin':
+                if inst is None or not with_admin:
+                    continue
+                do = op['do']
+                if do == 'connect':
+                    hw.handshake(adm)
+                    hw.post(adm, ['40/admin,'])
+                    hw.settle()
+                elif do == 'poll' and hw.queued(adm):
+                    hw.poll(adm)
+                elif do == 'stats':
+                    run_stats_once(hw.w, inst, parked)
+                elif do == 'ping' and adm.sid is not None:
+                    hw.ping(adm)
+                continue
+            c = clients.get(op.get('c'))
+            if k == 'open':
+                j = c.j if c.flavour == 'jsonp' else None
+                note(i, op, c, hw.handshake(c, headers=hdr(op)), j)
+            elif k == 'post':
+                note(i, op, c, hw.post(c, op['pk']))
+                hw.settle()
+            elif k == 'poll':
+                if decisions is None:
+                    go = bool(op.get('idle')) or hw.queued(c)
+                    made.append(go)
+                else:
+                    go = decisions[pi]
+                    pi += 1
+                if go:
+                    j = c.j if c.flavour == 'jsonp' else None
+                    note(i, op, c, hw.poll(c, headers=hdr(op, op.get('gzip'))), j)
+            elif k == 'ping':
+                hw.ping(c)
+            elif k == 'api':
+                ns = op['ns']
+                if op['call'] == 'emit':
+                    to = op['to']
+                    if to is not None and 'c' in to:
+                        to = hw.sio.manager.sid_from_eio_sid(clients[to['c']].sid, ns)
+                        if to is None:
+                            continue
+                    elif to is not None:
+                        to = to['room']
+                    data = {'raw': b'\xc0\xff\xee'} if op['data'] == '<bytes>' else op['data']
+                    kw = {}
+                    if op.get('cb'):
+                        def cb(*a, _n=len(cbs)):
+                            app.append(['callback', _n] + [C.jsonable(x) for x in a])
+                        cbs.append(cb)
+                        kw['callback'] = cb
+                    hw.w.api('emit', op['ev'], data, namespace=ns, to=to, **kw)
+                else:
+                    sid = hw.sio.manager.sid_from_eio_sid(clients[op['c']].sid, ns)
+                    if sid is not None:
+                        hw.w.api('disconnect', sid, namespace=ns)
+                hw.settle()
+            elif k == 'bad':
+                note(i, op, c, bad_request(hw, c, op['kind']))
+        # what is still held for the clients
+        for name in sorted(clients):
+            c = clients[name]
+            for _ in range(4):
+                if not hw.queued(c):
+                    break
+                j = c.j if c.flavour == 'jsonp' else None
+                note(len(script['ops']), {'op': 'poll', 'c': name, 'final': True}, c, hw.poll(c), j, final=True)
+        rooms = sorted((ns, ids.name(r) if r is not None else '', ids.name(s))
+                       for ns, rs in hw.sio.manager.rooms.items() if ns != ADMIN_NS
+                       for r, mem in rs.items() for s in mem)
+        return {'resp': out, 'app': app, 'decisions': made, 'rooms': [list(x) for x in rooms],
+                'sockets': sorted(name for name, c in clients.items() if c.sid in hw.eio.sockets)}
+    finally:
+        try:
+            if inst is not None:
+                shutdown_instrumentation(hw.w, inst)
+        finally:
+            hw.close()
+
+
+def bad_request(hw, c, kind):
+    q = c.query()
+    if kind == 'sid':
+        return hw.request('GET', q.split('&sid=')[0] + '&sid=nobody')
+    if kind == 'transport':
+        return hw.request('GET', q.replace('transport=polling', 'transport=carrier-pigeon'))
+    if kind == 'version':
+        return hw.request('GET', c.query(handshake=True).replace('EIO=4', 'EIO=3'))
+    if kind == 'jsonp':
+        return hw.request('GET', q.split('&j=')[0] + '&j=x')
+    if kind == 'put':
+        return hw.request('PUT', q, b'40', 'text/plain')
+    if kind == 'options':
+        return hw.request('OPTIONS', q, headers={'HTTP_ORIGIN': ORIGINS['same'],
+                                                 'HTTP_ACCESS_CONTROL_REQUEST_HEADERS': 'content-type'})
+    if kind == 'too-long':
+        ct, body = c.body(['4' + '2["echo","' + 'y' * 64 + '"]'])
+        return hw.request('POST', q, body, ct, content_length=10 ** 7)
+    if kind == 'unknown-packet':
+        ct, body = c.body(['9zz'])
+        return hw.request('POST', q, body, ct)
+    if kind == 'not-a-packet':
+        ct, body = c.body(['x'])
+        return hw.request('POST', q, body, ct)
+    if kind == 'post-no-sid':
+        ct, body = c.body(['40'])
+        return hw.request('POST', c.query(handshake=True), body, ct)
+    if kind == 'origin':
+        return hw.request('GET', q, headers={'HTTP_ORIGIN': ORIGINS['other']})
+    raise ValueError(kind)
+
+
+def http_diff(script, plain, inst):
+    """-> first differences (text), application side"""
+    bad = []
+    a, b = plain['resp'], inst['resp']
+    for x, y in zip(a, b):
+        if (x['i'], x['c']) != (y['i'], y['c']):
+            bad.append('request sequence differs: plain answered op %r for %s, instrumented op %r for %s'
+                       % (x['i'], x['c'], y['i'], y['c']))
+            break
+        fl = next((c['fl'] for c in script['clients'] if c['c'] == x['c']), '?')
+        who = 'op %d %s, client %s (%s polling)' % (x['i'], json.dumps(x['op']), x['c'], fl)
+        for key, label in (('status', 'status line'), ('headers', 'headers'), ('body', 'body')):
+            if x[key] != y[key]:
+                bad.append('%s: %s of the HTTP response differs: instrumented %r, plain %r; the client makes of it: '
+                           'instrumented %r, plain %r' % (who, label, y[key], x[key], y['client_sees'], x['client_sees']))
+                break
+        if not y['content_length_ok']:
+            bad.append('%s: Content-Length of the instrumented server\'s response does not match its body' % who)
+        if bad:
+            break
+    if not bad and len(a) != len(b):
+        extra = (b if len(b) > len(a) else a)[min(len(a), len(b))]
+        bad.append('%s server answered one more request (what was still held for client %s): %r'
+                   % ('instrumented' if len(b) > len(a) else 'plain', extra['c'], extra['client_sees']))
+    for key, label in (('app', 'handler invocations / callbacks'), ('rooms', 'rooms of application namespaces'),
+                       ('sockets', 'clients whose engine.io session is alive')):
+        if plain[key] != inst[key]:
+            bad.append('%s differ: instrumented %r, plain %r' % (label, inst[key], plain[key]))
+    return bad
+
+
+def http_nontrivial(script, plain):
+    kinds = set()
+    for r in plain['resp']:
+        if r['status'].startswith('200') and r['client_sees'] and r['client_sees'] != ['<OK>']:
+            fl = next((c['fl'] for c in script['clients'] if c['c'] == r['c']), None)
+            kinds.add(fl)
+    return kinds
+
+
+HTTP_INST = [{'mode': m, 'read_only': ro} for m in ('development', 'production') for ro in (False, True)]
+
+
+def run_http(ctx):
+    rng = ctx.rng
+    n = ctx.scale(120, 1500)
+    evals = nontriv = failures = 0
+    sample = None
+    for si in range(n):
+        family = ('threading', 'asyncio')[si % 2]
+        script = gen_http_script(rng, rng.randint(25, 60))
+        plain = run_http_script(family, script)
+        kinds = http_nontrivial(script, plain)
+        variants = [(HTTP_INST[(si // 2 + k) % 4], adm) for k, adm in ((0, False), (1, True), (2, True))]
+        for inst_spec, with_admin in variants:
+            inst = run_http_script(family, script, inst_spec, with_admin, plain['decisions'])
+            evals += len(inst['resp'])
+            ctx.count('http.%s.%s.ro=%s.admin=%s' % (family, inst_spec['mode'], inst_spec['read_only'], with_admin))
+            bad = http_diff(script, plain, inst)
+            if bad:
+                failures += 1
+                small = shrink_http(family, script, inst_spec, with_admin)
+                p2 = run_http_script(family, small)
+                i2 = run_http_script(family, small, inst_spec, with_admin, p2['decisions'])
+                b2 = http_diff(small, p2, i2) or bad
+                ctx.violation('oracle', 'HTTP level: instrumented (%s, read_only=%s, admin %sconnected, %s) vs plain '
+                              'server: %s' % (inst_spec['mode'], inst_spec['read_only'], '' if with_admin else 'not ',
+                                              family, b2[0][:900]),
+                              {'part': 'http', 'family': family, 'script': small, 'inst': inst_spec,
+                               'with_admin': with_admin, 'failures': b2[:5]})
+                break
+        for r in plain['resp']:
+            fl = next((c['fl'] for c in script['clients'] if c['c'] == r['c']), None)
+            ctx.count('http.response.%s.%s' % (fl, r['status'].split(' ')[0]))
+            if r['op']['op'] == 'bad':
+                ctx.count('http.bad_request.' + r['op']['kind'])
+            if any(k.lower() == 'content-encoding' for k, _v in r['headers']):
+                ctx.count('http.response.compressed')
+            if any(k.lower() == 'access-control-allow-origin' for k, _v in r['headers']):
+                ctx.count('http.response.cors')
+        if len(kinds) >= 2 and 'jsonp' in kinds:
+            nontriv += 1
+        if sample is None and len(script['ops']) <= 30:
+            sample = {'family': family, 'clients': script['clients'], 'ops': script['ops'][:12]}
+        if failures >= 2:
+            break
+    ctx.coverage['http_level'] = {
+        'scripts': si + 1, 'application_responses_compared': evals, 'scripts_with_jsonp_and_another_flavour': nontriv,
+        'sample': sample,
+        'rule': 'one script = 2-4 polling clients (plain XHR, JSONP with j=<n> and form-encoded d= bodies, b64=1) '
+                'talking to the real Server.handle_request (WSGI) / AsyncServer.handle_request (ASGI) in process: '
+                'handshakes (with and without Origin), CONNECTs with auth / refused, events with and without ack ids, '
+                'several packets per POST, binary events and acks, server-side emits / callbacks / disconnects, ping and '
+                'pong, compressed polls, idle polls (time-out), engine.io CLOSE, malformed requests; played on a plain '
+                'server, then on instrumented ones (development / production, read_only, with and without an admin '
+                'connected over the same HTTP entry, polling and receiving the stats); every response to an '
+                'application client — status, headers, body, ids renamed — handler invocations, rooms and live '
+                'sessions must be equal'}
+    return evals, nontriv
+
+
+def shrink_http(family, script, inst_spec, with_admin, budget=60):
+    def fails(ops):
+        sc = dict(script, ops=ops)
+        try:
+            p = run_http_script(family, sc)
+            i = run_http_script(family, sc, inst_spec, with_admin, p['decisions'])
+        except Exception:   # noqa
+            return False
+        return bool(http_diff(sc, p, i))
+    ops = list(script['ops'])
+    step = max(1, len(ops) // 2)
+    while step >= 1 and budget > 0:
+        i = 0
+        while i < len(ops) and budget > 0:
+            cand = ops[:i] + ops[i + step:]
+            budget -= 1
+            if cand and fails(cand):
+                ops = cand
+            else:
+                i += step
+        step //= 2
+    return dict(script, ops=ops)
+
+
+def replay_http(case):
+    script = case['script']
+    plain = run_http_script(case['family'], script)
+    inst = run_http_script(case['family'], script, case['inst'], case['with_admin'], plain['decisions'])
+    print('%s server; instrument(auth=False, mode=%r, read_only=%r); admin client %s' % (
+        case['family'], case['inst']['mode'], case['inst']['read_only'],
+        'connected over the same HTTP entry' if case['with_admin'] else 'absent'))
+    print('clients: %s' % json.dumps(script['clients']))
+    fl = {c['c']: c['fl'] for c in script['clients']}
+    for n, r in enumerate(inst['resp']):
+        p = plain['resp'][n] if n < len(plain['resp']) else None
+        same = p is not None and all(p[k] == r[k] for k in ('status', 'headers', 'body'))
+        print('--- op %s %s  [%s]' % (r['i'], json.dumps(r['op']), fl.get(r['c'])))
+        print('    instrumented: %s %r' % (r['status'], r['body'][:300]))
+        if not same:
+            print('    plain       : %s' % ('%s %r' % (p['status'], p['body'][:300]) if p else '(no such request)'))
+            print('    headers     : instrumented %r, plain %r' % (r['headers'], p['headers'] if p else None))
+            print('    the client makes of it: instrumented %r, plain %r' % (r['client_sees'], p['client_sees'] if p else None))
+    bad = http_diff(script, plain, inst)
+    print('verdict: %s' % ('property violated on the implementation:\n  ' + '\n  '.join(bad) if bad else 'no difference'))
+    return 1 if bad else 0
+
+
 # ====================================================================== entry points
 
 def run(ctx):
@@ -1454,7 +2005,8 @@ def run(ctx):
     run_positive_control(ctx)
     npairs = ctx.scale(288, 3600)
     ev_p, nt_p, samples_p = run_pairs(ctx, npairs, ctx.scale(40, 60))
-    ctx.coverage['evaluations'] = ev_g + ev_p + n_eq + n_reg
+    ev_h, nt_h = run_http(ctx)
+    ctx.coverage['evaluations'] = ev_g + ev_p + n_eq + n_reg + ev_h
     ctx.coverage['gate_attempts'] = ev_g
     ctx.coverage['pair_ops'] = ev_p
     ctx.coverage['distinct_nontrivial'] = nt_g + nt_p
@@ -1493,6 +2045,8 @@ def replay(ctx, r):
         finally:
             pc.close()
         return 0
+    if part == 'http':
+        return replay_http(case)
     if part == 'tie':
         v, text = execute_tie(case)
         print('model of the instrumented server vs real instrumented server: %s %s' % (v, text))
